@@ -842,8 +842,9 @@ func verifC24JudgeDecode(data []byte) (string, error) {
 		return "", fmt.Errorf("re-encoded message is not valid JSON: %s", out)
 	}
 	outcome := "message " + reflect.TypeOf(msg).Name()
-	if isRequest && id == "" {
-		return outcome + " (observation: request with empty-string id accepted)", nil
+	if _, isResponse := msg.(GenericResponse); (isRequest || isResponse) && id == "" {
+		// "id":"" is accepted; the id member is omitempty on output, so the message cannot be written back. Recorded, not judged.
+		return outcome + " (observation: empty-string id accepted)", nil
 	}
 	msg2, _, err2, p2 := verifC24Decode(out)
 	if p2 != nil || err2 != nil {
